@@ -75,6 +75,7 @@ fn main() {
         "C04" => vlib::routing::run(&mut ctx, vlib::routing::Mode::C04),
         "C05" => vlib::c05::run(&mut ctx),
         "C06" => vlib::c06::run(&mut ctx),
+        "C07" => vlib::c07::run(&mut ctx),
         "C08" => vlib::c08::run(&mut ctx),
         "C09" => vlib::c09::run(&mut ctx),
         "C10" => vlib::c10::run(&mut ctx),
